@@ -41,7 +41,7 @@ var classProps = map[string][]string{
 	"gc-retention":             {"C14"},
 	"reset-diff":               {"C15"},
 	"registry":                 {"C16"},
-	"type-limit":               {"C16"},
+	"type-limit":               {"C16", "C10"},
 	"dump-diff":                {"C17"},
 	"load-accepted":            {"C17"},
 	"generic-diff":             {"C18"},
